@@ -495,7 +495,9 @@ def groupselectmin(table, key, value, presorted=False, buffersize=None,
     # N.B., sorting by value destroys any ordering by key, so the value-sorted
     # table always has to be (stably) re-sorted by key, even if the input was
     # presorted
-    return groupselectfirst(sort(table, value, reverse=False), key,
+    return groupselectfirst(sort(table, value, reverse=False,
+                                 buffersize=buffersize, tempdir=tempdir,
+                                 cache=cache), key,
                             presorted=False, buffersize=buffersize,
                             tempdir=tempdir, cache=cache)
 
@@ -512,7 +514,9 @@ def groupselectmax(table, key, value, presorted=False, buffersize=None,
     # N.B., sorting by value destroys any ordering by key, so the value-sorted
     # table always has to be (stably) re-sorted by key, even if the input was
     # presorted
-    return groupselectfirst(sort(table, value, reverse=True), key,
+    return groupselectfirst(sort(table, value, reverse=True,
+                                 buffersize=buffersize, tempdir=tempdir,
+                                 cache=cache), key,
                             presorted=False, buffersize=buffersize,
                             tempdir=tempdir, cache=cache)
 
